@@ -86,10 +86,12 @@ def _analyze_sequence(
     parts joined to it by `&&`: those run only if the cd succeeded.  After any
     other operator the shell may be in either directory (the cd may have
     failed), and a part followed by `&` runs in a subshell and moves nothing.
+    A cd written after `||` may be skipped while the `&&` chain goes on.
     """
     decisions = []
     effective_cwd = cwd
     assumed = False  # effective_cwd holds only if an earlier cd succeeded
+    prev_op = ";"
     for i, node in enumerate(nodes):
         decisions.append(_analyze_node(node, config, effective_cwd, remote=remote))
         if remote:
@@ -97,15 +99,15 @@ def _analyze_sequence(
         op = operators[i] if operators and i < len(operators) else ";"
         if op != "&":
             cd_target = _extract_cd_target(node)
-            if cd_target and op == "&&":
+            if cd_target and op == "&&" and prev_op != "||":
                 effective_cwd = _resolve_cd_target(cd_target, effective_cwd)
                 assumed = True
-                continue
-            if cd_target or _changes_directory(node):
+            elif cd_target or _changes_directory(node):
                 effective_cwd = _UNKNOWN_CWD
         if assumed and op != "&&":
             effective_cwd = _UNKNOWN_CWD
             assumed = False
+        prev_op = op
     return decisions
 
 
